@@ -410,9 +410,12 @@ unsafe fn kmerminhash_add_from(ptr: *mut SourmashKmerMinHash, other: *const Sour
 ffi_fn! {
     unsafe fn kmerminhash_remove_from(ptr: *mut SourmashKmerMinHash, other: *const SourmashKmerMinHash)
     -> Result<()> {
+        // `other` may be the very object behind `ptr` (mh.remove_many(mh)):
+        // copy the hashes out first instead of iterating a vector while
+        // removing from it.
+        let hashes = SourmashKmerMinHash::as_rust(other).mins();
         let mh = SourmashKmerMinHash::as_rust_mut(ptr);
-        let other_mh = SourmashKmerMinHash::as_rust(other);
-        mh.remove_from(other_mh)
+        mh.remove_many(hashes)
     }
 }
 
